@@ -443,7 +443,7 @@ class FieldStorage:
                 self.ctype = header.value
 
         if self.name is None:
-            raise BodyParsingError(f'Noname field found while parsing multipart/formdata body: {header_raw}')
+            raise BodyParsingError(f'Noname field found while parsing multipart/formdata body: {headers_raw}')
 
         if self.filename is not None:
             self.file = BytesIOProxy(src, *data_section)
